@@ -13,6 +13,8 @@ use std::process::{Command, Stdio};
 use std::time::{Duration, Instant};
 
 pub const STACK: usize = 64 << 20;
+/// a single exchange slower than this (repeatedly, in isolation) is reported by C04 as `slow`
+pub const SLOW_MS: u64 = 1500;
 
 pub fn plan_runs(prop: Prop, tier: &str) -> u64 {
     match prop {
@@ -96,8 +98,31 @@ pub fn worker(a: &WorkerArgs) -> i32 {
             if a.step_journal {
                 journal_write(&mut jf, run, k as u64);
             }
-            let f = trace::exec(&mut dev, st, a.prop, &mut log);
+            let t_step = Instant::now();
+            let mut f = trace::exec(&mut dev, st, a.prop, &mut log);
+            let took = t_step.elapsed();
             account(a.prop, st, &dev, &mut res.stats);
+            // time monitor (C04 only; never logged, so event logs stay deterministic): a decode
+            // normally takes microseconds. One that takes seconds is re-timed three times in
+            // isolation and reported only if every repetition is still that slow.
+            if f.is_none() && a.prop == Prop::C04 && took > Duration::from_millis(SLOW_MS) && !matches!(st, Step::Deliver { class, .. } if class.starts_with("sweep")) {
+                let mut best = took;
+                for _ in 0..3 {
+                    let mut d2 = Device::new();
+                    let mut l2 = Log::new(false);
+                    let t = Instant::now();
+                    let _ = trace::exec(&mut d2, st, a.prop, &mut l2);
+                    best = best.min(t.elapsed());
+                }
+                if best > Duration::from_millis(SLOW_MS) {
+                    f = Some(Finding {
+                        rule: "slow".into(),
+                        detail: format!("one exchange takes {} ms even when repeated alone (normal: well under 1 ms): super-linear work or a near-hang for an input within the message limit", best.as_millis()),
+                    });
+                } else {
+                    res.stats.probe("slow_step_not_reproduced");
+                }
+            }
             if let Some(f) = f {
                 found = Some((k, f));
                 break;
@@ -407,6 +432,19 @@ pub fn steps_from_json(js: &[J]) -> Option<Vec<Step>> {
 
 /// Does this trace still fail the same way? In-process for ordinary findings, in a child for aborts.
 fn still_fails(exe: &Path, a: &RunArgs, steps: &[Step], rule: &str, aborted: bool) -> bool {
+    if rule == "slow" {
+        // the trace's last exchange must still be slow on a fresh device (earlier exchanges are irrelevant to timing)
+        let Some(last) = steps.last() else { return false };
+        let mut best = Duration::from_secs(3600);
+        for _ in 0..2 {
+            let mut d = Device::new();
+            let mut l = Log::new(false);
+            let t = Instant::now();
+            let _ = trace::exec(&mut d, last, a.prop, &mut l);
+            best = best.min(t.elapsed());
+        }
+        return best > Duration::from_millis(SLOW_MS);
+    }
     if !aborted {
         let (res, _, _) = run_trace(steps, a.prop, false);
         matches!(res, Some((k, f)) if k == steps.len() - 1 && f.rule == rule)
@@ -517,6 +555,7 @@ fn finalise_violation(exe: &Path, a: &RunArgs, v: Violation) -> Result<(Violatio
         let (res, log, _) = run_trace(&min, a.prop, true);
         match res {
             Some((_, f)) => (f.detail, log.hash(), log.lines.clone().unwrap_or_default()),
+            None if v.rule == "slow" => (v.detail.clone(), log.hash(), log.lines.clone().unwrap_or_default()),
             None => return Err("harness: minimised trace stopped failing".into()),
         }
     };
@@ -568,6 +607,29 @@ pub fn replay(path: &Path) -> i32 {
         }
     }
     let rule = rule.to_string();
+    if rule == "slow" {
+        let last = steps.last().cloned();
+        let took = on_big_stack(move || {
+            let mut best = Duration::from_secs(3600);
+            if let Some(last) = last {
+                for _ in 0..2 {
+                    let mut d = Device::new();
+                    let mut l = Log::new(false);
+                    let t = Instant::now();
+                    let _ = trace::exec(&mut d, &last, prop, &mut l);
+                    best = best.min(t.elapsed());
+                }
+            }
+            best
+        });
+        println!("last exchange takes {} ms (threshold {} ms)", took.as_millis(), SLOW_MS);
+        return if took > Duration::from_millis(SLOW_MS) {
+            println!("REPRODUCED property={} rule=slow log_hash={:016x}", prop.id(), want_hash);
+            1
+        } else {
+            0
+        };
+    }
     let (res, log) = on_big_stack(move || {
         let (res, log, _) = run_trace(&steps, prop, true);
         (res.map(|(k, f)| (k, f, steps.len())), log)
